@@ -351,7 +351,7 @@ theorem maxjobs_le_limit (L : Int) (hL : 0 ≤ L) (ops : List MJOp) :
 
 /-- A job that is still queued/waiting is admitted as soon as there is room. -/
 theorem maxjobs_admits_when_room (s : MJ) (id : Nat) (st : MdState) (nb : Bool)
-    (hst : st.cancelled = false) (hroom : (s.running.length : Int) < s.limit) :
+    (hst : st.cancelled nb = false) (hroom : (s.running.length : Int) < s.limit) :
     (s.attempt id st nb).2 = some true ∧ id ∈ (s.attempt id st nb).1.running := by
   unfold MJ.attempt
   have hn : ¬ (s.limit ≤ (s.running.length : Int)) := by omega
@@ -363,15 +363,36 @@ theorem maxjobs_admits_when_room (s : MJ) (id : Nat) (st : MdState) (nb : Bool)
 
 /-- **Re-attaching after an mrp restart restores the count**: a fresh
 semaphore (`resetMaxJobs`) on which `reattach` (= one non-blocking `Acquire`)
-is called once for every job that is in flight on the cluster — distinct jobs,
-at most `limit` of them, which is what the previous incarnation guaranteed —
-holds exactly those jobs afterwards, so new submissions wait for them. -/
-theorem reattach_restores_count (L : Int) (ids : List Nat) (hnd : ids.Nodup)
-    (hlen : (ids.length : Int) ≤ L) :
-    ((MJ.init L).run (reattachOps ids)).running = ids := by
-  have := MJ.run_reattach L ids (MJ.init L) rfl (by simpa [MJ.init] using hnd)
-    (by simpa [MJ.init] using hlen)
+is called once for every job that is in flight on the cluster — in whichever of
+the two in-flight states, Queued or RUNNING, the restarted mrp reads from disk;
+distinct jobs, at most `limit` of them, which is what the previous incarnation
+guaranteed — holds exactly those jobs afterwards, so new submissions wait for
+them and `maxjobs_le_limit` continues to bound the jobs submitted at the same
+time across the restart.  (True of the code since the repair of audit finding
+C12-H7; the behaviour before it is `reattach_dropped_running_jobs_before_fix`.) -/
+theorem reattach_restores_count (L : Int) (ids : List (Nat × MdState))
+    (hst : ∀ p ∈ ids, p.2 = .queued ∨ p.2 = .running)
+    (hnd : (ids.map (·.1)).Nodup) (hlen : (ids.length : Int) ≤ L) :
+    ((MJ.init L).run (reattachOps ids)).running = ids.map (·.1) := by
+  have := MJ.run_reattach L ids (MJ.init L) rfl
+    (fun p hp => by rcases hst p hp with h | h <;> simp [h, MdState.inFlight])
+    (by simpa [MJ.init] using hnd) (by simpa [MJ.init] using hlen)
   simpa [MJ.init] using this.1
+
+/-- **The defect the repair removed** (negative witness for the OLD `Acquire`,
+reproduced on the unrepaired code by the cluster-restart stream: key
+`C12:cluster:over-maxjobs`).  `Acquire` refused every state other than
+Queued/Waiting also when re-attaching, so two jobs Running on the cluster (the
+normal in-flight state: the job has written `_log`) were not put back, the fresh
+semaphore stayed empty, and two MORE jobs were admitted: four jobs outstanding
+with `--maxjobs 2`. -/
+theorem reattach_dropped_running_jobs_before_fix :
+    ((MJ.init 2).runOld [(3, .running, true), (1, .running, true)]).running = [] ∧
+    ((MJ.init 2).runOld [(3, .running, true), (1, .running, true),
+        (7, .waiting, false), (8, .waiting, false)]).running = [7, 8] ∧
+    ((MJ.init 2).run [.attempt 3 .running true, .attempt 1 .running true,
+        .attempt 7 .waiting false, .attempt 8 .waiting false]).running = [3, 1] := by
+  decide
 
 /-! ## GetSystemReqs / Enqueue (after float → integer conversion) -/
 
@@ -634,8 +655,10 @@ theorem skel_MaxJobsAcquire_ok :
     Gen.c12Skel_MaxJobsAcquire_extracted = false ∨ Gen.c12Skel_MaxJobsAcquire =
     ["if metadata == nil",
      "return false",
+     "canceled := func",
      "st, ok := metadata.getState()",
-     "if ok && st != Queued && st != Waiting",
+     "return ok && st != Queued && st != Waiting && !(nonblocking && st == Running)",
+     "if canceled()",
      "return false",
      "defer self.cond.Signal()",
      "self.lock.Lock()",
@@ -643,8 +666,7 @@ theorem skel_MaxJobsAcquire_ok :
      "for len(self.running) >= self.Limit",
      "if self.Limit <= 0",
      "return false",
-     "st, ok := metadata.getState()",
-     "if ok && st != Queued && st != Waiting",
+     "if canceled()",
      "return false",
      "_, ok := self.running[metadata]",
      "if ok",
@@ -652,8 +674,7 @@ theorem skel_MaxJobsAcquire_ok :
      "if nonblocking",
      "return false",
      "self.cond.Wait()",
-     "st, ok := metadata.getState()",
-     "if ok && st != Queued && st != Waiting",
+     "if canceled()",
      "return false",
      "self.running[metadata] = struct{}{}",
      "return true"] := by
@@ -1328,8 +1349,8 @@ example : Sane ⟨4, 8, 16384, 1, 1, 3⟩ ∧
     normalize ⟨4, 8, 16384, 1, 1, 3⟩ 8192 16384 ⟨900, 99999, 99999⟩ = ⟨400, 8192, 16384⟩ := by decide
 
 /-- `reattach_restores_count`: two in-flight jobs, --maxjobs 2; a third job then has to wait -/
-example : ((MJ.init 2).run (reattachOps [3, 1])).running = [3, 1] ∧
-    (((MJ.init 2).run (reattachOps [3, 1])).attempt 0 .waiting false).2 = none := by decide
+example : ((MJ.init 2).run (reattachOps [(3, .running), (1, .queued)])).running = [3, 1] ∧
+    (((MJ.init 2).run (reattachOps [(3, .running), (1, .queued)])).attempt 0 .waiting false).2 = none := by decide
 
 /-- MaxJobs: the limit is reached and a further blocking attempt waits -/
 example :
